@@ -946,7 +946,8 @@ theorem nest_too_deep (f : Bytes → Bool) (t : Tail) : ∀ (n d : Nat) (st : St
 
 /-- FINDING: 10001 nested arrays are written by the model's `marshalIndent` but the decoder (Go:
     "exceeded max depth") rejects the text.  (Go's `MarshalIndent` itself fails there, in its indent
-    pass; the model's writer has no error result.) -/
+    pass; the model's `marshalIndent` has no error result, its callers `json()` and `getRootJson`
+    test `Json.tooDeep` first and report the error as Go does: Props/C04.lean section 7.) -/
 theorem nest_rejected (f : Bytes → Bool) (t : Tail) (n : Nat) (h : maxNestingDepth ≤ n) (rest : Bytes) :
     decodeOne f (marshalIndent (nest n) ++ rest) t = .error := by
   rw [marshalIndent_eq]
